@@ -11,6 +11,6 @@ def clear (log : List Ev) (r c : Nat) : List Ev × Bool :=
   (log.filter (fun ev => !(ev.row == r && ev.col == c)), log.any (fun ev => ev.row == r && ev.col == c))
 
 /-- Log after `Set(c, f=r, t)`. -/
-def set (log : List Ev) (r c : Nat) (t : Option Civil) : List Ev := log ++ [⟨r, c, t⟩]
+def set (log : List Ev) (r c : Nat) (t : Option Civil) : List Ev := log ++ [⟨r, c, t, true⟩]
 
 end PV.C19.Spec
